@@ -163,7 +163,8 @@ class SimSocket:
         if self.closed == 1:
             answered = self.wbuf.count(b"HTTP/1.1 200 OK")
             if self.total_in > answered and not self.peer_closed and self.w.worker.alive:
-                self.w.anomaly("closed-with-request-in-progress" + ("-at-capacity" if self.w.spins else ""), "the worker closed connection %s although a request (%d sent, %d answered) is in progress and the client is still there" % (
+                piped = self.w.clients.get(self.client, {}).get("pipelined") and not self.rbuf
+                self.w.anomaly("closed-with-pipelined-request-pending" if piped else ("closed-with-request-in-progress" + ("-at-capacity" if self.w.spins else "")), "the worker closed connection %s although a request (%d sent, %d answered) is in progress and the client is still there" % (
                     self.name, self.total_in, answered))
             self.closed_at = self.w.s.now
             self.closed_by = me.name if me else None
@@ -348,6 +349,15 @@ class World:
 
     def ev_send(self, k, kind):
         c = self.clients[k]["sock"]
+        if kind == "pipe2":
+            # two keep-alive requests in one segment (HTTP pipelining)
+            for i in range(2):
+                path = "/plain/%d.%d" % (k, self.clients[k]["requests"])
+                c.rbuf += ("GET %s HTTP/1.1\r\nHost: h\r\n\r\n" % path).encode()
+                self.clients[k]["requests"] += 1
+                c.total_in += 1
+            self.clients[k]["pipelined"] = True
+            return
         path = {"ka": "/plain", "close": "/plain", "gate": "/gate", "half": "/plain"}[kind]
         path += "/%d.%d" % (k, self.clients[k]["requests"])
         req = "GET %s HTTP/1.1\r\nHost: h\r\n%s\r\n" % (path, "Connection: close\r\n" if kind == "close" else "")
@@ -431,11 +441,13 @@ class World:
             elif not c.closed:
                 waiting = st["requests"] > self.answered(k)
                 if not waiting:
-                    for kind in ("ka", "close", "gate", "half"):
+                    for kind in ("ka", "close", "gate", "half", "pipe2"):
                         evs.append(("send", k, kind))
             evs.append(("close", k))
         if self.gates:
             evs.append(("release",))
+        if self.menu_mode == "nopipe":
+            evs = [e for e in evs if not (e[0] == "send" and e[2] == "pipe2")]
         if self.menu_mode == "keepalive":
             evs = [e for e in evs if (e[0] == "send" and e[2] == "ka") or e[0] == "connect"]
         elif self.steals_left > 0:
